@@ -54,12 +54,19 @@ func drawLegacy(t *simcore.Tape, box bool) legacyCfg {
 		first := t.CfgDraw(2)
 		l.idealRate[first], l.idealRate[1-first] = base, other
 		for x := 0; x < 2; x++ {
-			switch t.CfgDraw(4) {
+			switch t.CfgDraw(5) {
 			case 0, 1: // default 3x
 			case 2:
 				l.maxRate[x] = 5 * l.idealRate[x]
 			case 3:
 				l.maxRate[x] = 20 * l.idealRate[x]
+			case 4:
+				// boundary: this side's cap is EXACTLY the peer's ideal
+				// fee (same rate, same estimate) - "within each other's
+				// fee cap" includes the cap itself
+				if l.idealRate[1-x] > l.idealRate[x] {
+					l.maxRate[x] = l.idealRate[1-x]
+				}
 			}
 		}
 		l.height = openHeight + 100_000 // past every thaw height
